@@ -47,9 +47,12 @@ def spell_uri(rng, s):
 
 
 def underscore(rng, digits):
-    if len(digits) > 1 and rng.random() < 0.4:
-        k = rng.randint(1, len(digits) - 1)
-        return digits[:k] + '_' + digits[k:]
+    """digits := digit (digit | "_")*: separators anywhere after the first digit, single or doubled, also trailing"""
+    if not digits or not digits[0].isdigit():
+        return digits
+    for _ in range(rng.choice([0, 0, 1, 1, 2])):
+        k = rng.randint(1, len(digits))
+        digits = digits[:k] + rng.choice(['_', '_', '__']) + digits[k:]
     return digits
 
 
@@ -71,7 +74,15 @@ def spell_number(rng, x):
     sign = '-' if txt.startswith('-') else ''
     body = txt[len(sign):]
     ip = body.split('.')[0].split('e')[0].split('E')[0]
-    txt = sign + underscore(rng, ip) + body[len(ip):]
+    tail = body[len(ip):]
+    # ... and in the fraction and the exponent digits
+    m = __import__('re').match(r'(\.)(\d+)(.*)\Z', tail)
+    if m and rng.random() < 0.3:
+        tail = m.group(1) + underscore(rng, m.group(2)) + m.group(3)
+    m = __import__('re').match(r'(.*[eE][+-]?)(\d+)\Z', tail)
+    if m and rng.random() < 0.3:
+        tail = m.group(1) + underscore(rng, m.group(2))
+    txt = sign + underscore(rng, ip) + tail
     return txt, val
 
 
@@ -307,8 +318,30 @@ def run(ctx):
             if (first is None) != (not want) or (want and zincsim.jsonsim.dt_to_spec(codec.canon(first)) != want[0]):
                 ctx.violation('impl-counterexample', 'single=True does not give the first grid / None', {'document': text[:3000]})
                 return
+    # dense sweep of fractional seconds in times and date-times (every digit count 1..6)
+    scal = []
+    for _ in range(4000 if thorough else 500):
+        nd = rng.choice([1, 2, 3, 4, 5, 6, 6, 6])
+        f = ''.join(rng.choice('0123456789') for _ in range(nd))
+        hh, mm, ss = rng.randint(0, 23), rng.randint(0, 59), rng.randint(0, 59)
+        us = int(f.ljust(6, '0'))
+        if rng.random() < 0.6:
+            scal.append(('%02d:%02d:%02d.%s' % (hh, mm, ss, f), (hh, mm, ss, us)))
+        else:
+            scal.append(('2021-03-04%s%02d:%02d:%02d.%s%s UTC' % (rng.choice('Tt'), hh, mm, ss, f, rng.choice('Zz')), (hh, mm, ss, us)))
+    for t, want1 in scal:
+        ctx.coverage['evaluations'] += 1
+        ctx.count('fractional-seconds')
+        try:
+            v = h.parse_scalar(t, mode=h.MODE_ZINC)
+        except Exception as e:  # noqa
+            ctx.violation('impl-counterexample', 'the scalar %r was rejected with %s' % (t, type(e).__name__), {'scalar': t})
+            return
+        if (v.hour, v.minute, v.second, v.microsecond) != want1:
+            ctx.violation('impl-counterexample', 'the scalar %r was decoded as %r, it denotes %r' % (t, (v.hour, v.minute, v.second, v.microsecond), want1), {'scalar': t})
+            return
     ctx.sample({'document': sorted(seen, key=len)[len(seen) // 2][:1500]})
-    ctx.coverage['distinct_nontrivial'] = len(seen)
+    ctx.coverage['distinct_nontrivial'] = len(seen) + len(set(t for t, _ in scal))
 
 
 def _diff(a, b):
